@@ -102,6 +102,8 @@ HasFamily == \E p \in UserPaths(Reg) : Cardinality(IdsOfPath(Reg, p)) > 1
 \* coincidence-freedom: evaluated on the source program by the case generator; a registry without source program (real chain
 \* metadata, family G6) is certified only if every user path has exactly one id (DESIGN.md 3.4)
 CFdom == O.input.cf \/ (O.input.fam = "G6" /\ ~HasFamily)
+\* wire fidelity is stated for settings with codec attributes on (without them compact fields carry no marker)
+FidelityDomain == S.codec
 
 \* ids the model keeps on an occupied path although their own candidate item differs from the kept one
 BadlyKept == LET mf == ModelFinal IN
@@ -128,9 +130,11 @@ C05_BadIds == IF ~C05_Domain THEN {}
 (* ---- C17: renumbering / order (runs 2.. = permuted registries), restriction (retain) ---- *)
 PermRuns == {k \in DOMAIN O.runs : k > 1}
 SamePartition(Ra, Rb, pi) ==   \* Ra, Rb de-duplicated registries of the original and of the permuted registry
-  Len(Ra) = Len(Rb) /\ \A i, j \in Ids(Ra) : (Ra[i + 1].path = Ra[j + 1].path) <=> (Rb[pi[i + 1] + 1].path = Rb[pi[j + 1] + 1].path)
+  \* within every same-path family of the original registry (a new name that collides with another family's path is C04's business)
+  Len(Ra) = Len(Rb) /\ \A i, j \in Ids(Ra) : Reg[i + 1].path = Reg[j + 1].path =>
+                                               ((Ra[i + 1].path = Ra[j + 1].path) <=> (Rb[pi[i + 1] + 1].path = Rb[pi[j + 1] + 1].path))
 C17_Failed ==
-  IF ~(O.input.tog /\ IdsConsistent(Reg)) THEN {}
+  IF ~(CFdom /\ IdsConsistent(Reg)) THEN {}
   ELSE (IF \A k \in PermRuns : O.runs[k].gen.res = Run.gen.res /\ O.runs[k].gen.fp = Run.gen.fp THEN {} ELSE {"TokensInvariantUnderRenumbering"})
        \cup (IF \A k \in PermRuns : (Run.dedup.res = "ok" /\ O.runs[k].dedup.res = "ok") =>
                    SamePartition(Run.dedup.reg, O.runs[k].dedup.reg, O.input.perms[k - 1]) THEN {} ELSE {"RenamePartitionInvariant"})
@@ -171,7 +175,7 @@ C18_Check(k, withFaithful) ==
   /\ k.item.docs = DocsOf(S, IF k.variant = -1 THEN Ty(Reg, k.id).docs ELSE Ty(Reg, k.id).def.variants[k.variant + 1].docs)
 C18_Domain == IF ~GenOk THEN {}
               ELSE {i \in DOMAIN Run.composites : LET own == OwnItem(Run.composites[i]) IN own.kind # "none" /\ Len(own.generics) = 0}
-C18_Bad == {i \in C18_Domain : ~C18_Check(Run.composites[i], TRUE)}
+C18_Bad == {i \in C18_Domain : ~C18_Check(Run.composites[i], FidelityDomain)}
 \* bad only because a field type is one of the conflated types of a known C03 finding
 C18_BadOnlyByConflation == {i \in C18_Bad : \/ Run.composites[i].id \in BadlyKept     \* its own path's item belongs to another type
                                              \/ /\ C18_Check(Run.composites[i], FALSE)
@@ -188,7 +192,7 @@ C07_Failed ==
        \cup (IF \A r \in DOMAIN S.subs : /\ \A i \in DOMAIN AllTys : ~RefersTo(AllTys[i], <<S.root>> \o S.subs[r].src.segs)
                                           /\ \A id \in Ids(Reg) : Run.paths[id + 1].res = "ok" => ~RefersTo(Run.paths[id + 1].ty, <<S.root>> \o S.subs[r].src.segs)
              THEN {} ELSE {"NoReference"})
-       \cup (IF O.input.cf /\ UnfaithfulIds # {} THEN {"ParameterCorrect"} ELSE {})
+       \cup (IF O.input.cf /\ FidelityDomain /\ UnfaithfulIds # {} THEN {"ParameterCorrect"} ELSE {})
 
 (* ---- C08: every emitted item carries exactly the right derives and attributes (must/may) ---- *)
 C08_BadItems == IF ~GenOk THEN {}
@@ -198,13 +202,13 @@ C08_BadItems == IF ~GenOk THEN {}
 
 Failed ==
   \* C01: well-formed, coincidence-free registries (cf is evaluated on the source program by the case generator)
-  (IF CFdom /\ UnfaithfulIds # {} THEN {"C01.Faithful"} ELSE {})
+  (IF CFdom /\ FidelityDomain /\ UnfaithfulIds # {} THEN {"C01.Faithful"} ELSE {})
   \cup (IF CFdom /\ PathFailures # {} THEN {"C01.PathResolves"} ELSE {})
   \cup (IF CFdom /\ GenOk /\ ~Run.gen.parse_ok THEN {"C01.Parses"} ELSE {})
   \* C02: every well-formed registry
   \cup {"C02." \o x : x \in C02_Failed}
   \* C03: same-path families, not restricted to coincidence-free ones
-  \cup (IF HasFamily /\ UnfaithfulIds # {} THEN {"C03.Faithful"} ELSE {})
+  \cup (IF HasFamily /\ FidelityDomain /\ UnfaithfulIds # {} THEN {"C03.Faithful"} ELSE {})
   \cup (IF HasFamily /\ Run.gen.res \notin {"ok", "DuplicateTypePath"} THEN {"C03.OkOrDuplicate"} ELSE {})
   \cup {"C07." \o x : x \in C07_Failed}
   \cup (IF C08_BadItems # {} THEN {"C08.DerivesAndAttributes"} ELSE {})
@@ -218,11 +222,16 @@ Failed ==
 
 (* ---- attribution to known findings (DESIGN.md 2.8): a failed predicate is explained by a ----
    ---- site only if the implementation did exactly what the concrete model documents      ---- *)
+\* does the model, in the given or in one of the permuted orders, equate two same-path types whose candidate items differ?
+BadlyKeptAnyOrder == \E p \in UserPaths(Reg) : \E x, y \in IdsOfPath(Reg, p) : x # y /\ TypesEqual(Reg, x, y) /\ ~CoRepItems(Reg, S, x, y)
 Known ==
   IF Drift THEN {}
   ELSE (IF UnfaithfulIds # {} /\ \A id \in UnfaithfulIds : Reach(Reg, id) \cap BadlyKept # {}
         THEN {<<"C03.Faithful", "KeepFirst.CandidateItemsDiffer">>} ELSE {})
        \cup (IF C18_Bad # {} /\ C18_Bad = C18_BadOnlyByConflation THEN {<<"C18.StandaloneStruct", "KeepFirst.CandidateItemsDiffer">>} ELSE {})
+       \* order dependence that stems from a known conflation: the model keeps an id on an occupied path although its candidate item differs
+       \cup (IF BadlyKeptAnyOrder THEN {<<"C17.TokensInvariantUnderRenumbering", "KeepFirst.CandidateItemsDiffer">>, <<"C17.RenamePartitionInvariant", "KeepFirst.CandidateItemsDiffer">>,
+                                          <<"C17.RestrictionSameItems", "KeepFirst.CandidateItemsDiffer">>, <<"C17.RestrictionGenerates", "KeepFirst.CandidateItemsDiffer">>} ELSE {})
 
 Verdict == Terminal =>
   PrintT("V " \o ToJson([case |-> O.case, failed |-> Failed, drift |-> Drift, rejected |-> rejected, at |-> l,
